@@ -10,8 +10,8 @@ PROP = dict(
     flag_filter=r"^c09/|^shape|^resume_twin|^vop",
     # n = histories (10 kinds in rotation: store sweeps, manager sweeps, chain resume, real volumes, batched loops),
     # len = swept operations per store/manager history
-    quick=dict(n=20, len=14, shards=10, timeout=400),
-    thorough=dict(n=160, len=30, shards=16, timeout=1700),
+    quick=dict(n=24, len=14, shards=12, timeout=400),
+    thorough=dict(n=192, len=30, shards=16, timeout=1700),
     nontrivial=r"^op .*f=\[\d+:(err|panic):1:|^resume .*(fault|kill)\d+:", min_ops=6, min_kinds=1,
     shrink_budget=40, replay_timeout=300,
     rule="one evaluation = one generated history on a real sqlite.Store (+ real managers) opened on the fault-injecting database/sql driver: every op is executed uninterrupted on a twin store and with an injected failure at each chosen statement index on the main store (quick: first, last, two random; thorough: every index up to 90, else 64 of them), plus process-death copies of db/-wal/-shm at chosen indices; distinct = different op/observation text; non-trivial = at least one injected failure that was delivered",
